@@ -47,6 +47,13 @@ TEMPLATES = [
     'class K1(def c2: Int)\n    def g3: Int := 0\n    def m4(self, p5: Int) -> Int =>\n        self.g3 := self.g3 + p5\n        self.g3 + self.c2\n    def m6(fin self) -> Str => "obj of {self.c2}"\nclass K7(def c8: Int): K1(c8)\n    def m9(fin self) -> Int => self.c2 * 2\ndef o10 := K7(5)\nprint(o10.m4(2))\nprint(o10.m9())\nprint(o10.m6())\ndef v11 := [1, 2, 3]\nfor i12 in v11 do print(i12 + o10.c2)\ndef f13(a14: Int, a15: Str := "d") -> Str => "{a15}{a14}"\nprint(f13(1))\nprint(f13(2, "e"))\n',
 ]
 
+TEMPLATES += [
+    # several parents that define the same member: which one wins depends on the ORDER the parents are written in,
+    # which a renaming must not change
+    'class K1\n    def m2(fin self) -> Str => "first"\nclass K3\n    def m2(fin self) -> Str => "second"\n    def m4(fin self) -> Str => "bye"\nclass K5: K1, K3\n    def m6(fin self) -> Str => self.m2() + self.m2()\ndef o7 := K5()\nprint(o7.m2())\nprint(o7.m4())\nprint(o7.m6())\n',
+    'class K3\n    def m2(fin self) -> Str => "first"\nclass K1\n    def m2(fin self) -> Str => "second"\nclass K2\n    def m2(fin self) -> Str => "third"\nclass K5: K3, K1, K2\ndef o7 := K5()\nprint(o7.m2())\ndef f8(a9: Int, a1: Int := 2, a5: Int := 3) -> Int => a9 * 100 + a1 * 10 + a5\nprint(f8(1))\nprint(f8(1, 5))\n',
+]
+
 NAME_RE = re.compile(r"\b(?:Err\d+|msgErr\d+|[KT]\d+|[vwmtohfacgpi]\d+)\b")
 
 
@@ -121,6 +128,26 @@ def derived_rhos(rng, kinds):
     return out
 
 
+def order_rhos(rng, kinds):
+    """renamings that REVERSE (and that rotate) the alphabetical order of the names of each kind: anything the pipeline
+    orders by name (parents, members, arguments, imports) comes out in another order under them"""
+    out = []
+    for mode in ("reverse", "rotate"):
+        rho, used = {}, set()
+        for k in sorted(set(kinds.values())):
+            names = sorted(n for n, kk in kinds.items() if kk == k)
+            cands = [c for c in pool(k, False) if c not in used]
+            if len(cands) < len(names):
+                return out
+            new = sorted(rng.sample(cands, len(names)))
+            new = list(reversed(new)) if mode == "reverse" else new[1:] + new[:1]
+            for n, c in zip(names, new):
+                rho[n] = c
+                used.add(c)
+        out.append(rho)
+    return out
+
+
 def is_colliding(rho):
     return any(v in COLL_LOWER or v in COLL_UPPER for v in rho.values())
 
@@ -190,6 +217,10 @@ def run(chk):
             cases.append((i, random_rho(rng, kinds[i], 0.0), "ordinary"))
         for _ in range(4 if thorough else 2):
             cases.append((i, random_rho(rng, kinds[i], 0.35), "mixed"))
+    for i, t in enumerate(progs):
+        if kinds[i]:
+            for rho in order_rhos(rng, kinds[i]):
+                cases.append((i, rho, "order"))
     n_derived = 0
     for i in range(len(TEMPLATES)):
         ds = derived_rhos(rng, kinds[i])
